@@ -186,3 +186,5 @@ func verifC09RealAgg(N int, S int64, allOps bool) {
 
 func VerifHarness_C09_RealAgg_3x2() { verifC09RealAgg(3, 2, false) }
 func VerifHarness_C09_RealAgg_3x3() { verifC09RealAgg(3, 3, true) }
+
+func otelstorageTS(n int) otelstorage.Timestamp { return otelstorage.Timestamp(n) }
